@@ -6,7 +6,9 @@ git diff --quiet || { echo "/repo not clean"; exit 2; }
 git apply /verif/seeded/$s/patch.diff || { echo "patch does not apply"; exit 2; }
 mkdir -p /tmp/seedlogs
 for id in "$@"; do
+  cp /verif/evidence/$id.json /tmp/seedlogs/.evidence_$id.bak 2>/dev/null    # evidence files describe runs on the unchanged tree: keep them across a seeded run
   python3 /verif/run_check.py $id --tier $tier > /tmp/seedlogs/${s}_${id}_${tier}.log 2>&1; rc=$?
+  [ -f /tmp/seedlogs/.evidence_$id.bak ] && mv /tmp/seedlogs/.evidence_$id.bak /verif/evidence/$id.json
   echo "$(date +%H:%M) seed=$s check=$id tier=$tier rc=$rc $(grep -h 'VIOLATION\|KNOWN-FINDING\|BROKEN' /tmp/seedlogs/${s}_${id}_${tier}.log | head -3 | tr '\n' '|')" >> /tmp/seedlogs/summary.txt
 done
 git -C /repo checkout -- .
